@@ -937,7 +937,7 @@ func judgeData(cfg histCfg, s step, err error, m *tmodel, post snap, ca cnt, sta
 			for _, u := range s.Ups {
 				k := model.Key(s.full(u))
 				old, ok := m.snapPre[k]
-				if ok && (old.Atomic || old.Kind == 'i' && old.I == u.V) || earlier[k][u.V] {
+				if ok && !old.Atomic && old.Kind == 'i' && old.I == u.V || earlier[k][u.V] {
 					can++
 				}
 				if earlier[k] == nil {
@@ -961,15 +961,12 @@ func judgeData(cfg histCfg, s step, err error, m *tmodel, post snap, ca cnt, sta
 		switch {
 		case err == nil:
 			accepted = true
-			same := existed && old.Kind == 'i' && old.I == s.Ups[0].V
-			switch {
-			case existed && old.Atomic:
-				// A single update onto a stored atomic group: which of its
-				// values "the cached value" is is not specified; either counter.
-				if d[cUpd]+d[cSupp] != 1 || d[cUpd] < 0 || d[cSupp] < 0 || d[cStale] != 0 || d[cFut] != 0 || d[cEmpty] != 0 {
-					mm = &mismatch{"single-update-classification", fmt.Sprintf("%v returned nil: exactly one of updated/suppressed must grow by one, observed %s", s, grew())}
-				}
+			// A stored atomic group is never "the same value" as a scalar update.
+			same := existed && !old.Atomic && old.Kind == 'i' && old.I == s.Ups[0].V
+			if existed && old.Atomic {
 				stats["upd_onto_atomic"]++
+			}
+			switch {
 			case same && cfg.EventDriven:
 				mm = exact("suppressed-vs-updated", 0, 1, 0, 0, 0, "accepted with the value already cached: suppressed")
 				stats["upd_suppressed"]++
@@ -1836,7 +1833,7 @@ func main() {
 		Assumptions: []string{
 			"a leaf is 'metadata' iff the first element of its index path (origin, prefix elements, path elements) is \"meta\"; the update stream writes below meta/ only at names that are not registered metadata values (meta/x, meta/y/z) and deletes below meta/ only those, meta/connectError, meta, meta/* or everything — registered counters are driven through the lifecycle API only",
 			"'accepted' = the call returned no error for that update (this includes suppressed updates); a multi-update notification is all-data or all-metadata (the cache decides once per call from the first update whether the call carries target timestamps)",
-			"'suppressed' = accepted, a non-atomic leaf with an equal value was cached before the call and event-driven emulation is on; a single update onto a stored atomic group may count as either",
+			"'suppressed' = accepted, a non-atomic leaf with an equal value was cached before the call and event-driven emulation is on (a stored atomic group never equals a scalar update)",
 			"Reset post-condition: all eight counters are zero (counters count since the last Reset)",
 			"latency: S for window w at refresh time tau = samples of the refresh intervals (call order) that hold a sample and end after tau-w; only values a refresh sets are judged, never values it leaves in place; min/max are additionally required to be the smallest/largest sample of S where the package's '0 means unset' convention cannot interfere (max S > 0; no zero sample in S) — this is stronger than the bound in the statement and only applied with the recording Metadata, where S is known exactly",
 			"latency through the cache: S is the superset 'every non-metadata update submitted while the target was synced' (the cache does not sample stale or suppressed updates); values are observed as changes of Cache.Metadata() across UpdateMetadata; cache.Now lags latency.Now by 700 µs so a metadata update leaking into the statistics is visible",
